@@ -7,7 +7,7 @@
  R4 equality of RawVector and IntVector is the derived field equality
 """
 from facts import Undecided, loc, tstr, callee_name, callee_written, subterms, operand_place
-from guards import facts_at, must_pass_through, strip_casts
+from guards import facts_at, must_pass_through, strip_casts, edge_facts
 from effects import field_store_blocks, store_path, comutated
 from pat import m, Bind, ANY, Call, Bin, Const, Param, SelfField, core, self_path
 
@@ -125,7 +125,15 @@ def check_tail_invariant(ctx, F, tag, prefix="C05.R1"):
                     ctx.exempt(prefix + ".tail-cleared-after-trigger", b.name, loc(st["sp"]), REVIEWED_AGGREGATES[b.name])
                     ctx.ob(prefix + ".tail-cleared-after-trigger", "%s|aggregate%s" % (b.name, tag), loc(st["sp"]), True, "reviewed-invariant", REVIEWED_AGGREGATES[b.name])
                 else:
-                    trig.append((bi, "RawVector{data: %s}" % tstr(d)[:60], st["sp"]))
+                    # words produced by complementing other words have ones past the end whenever len % 64 != 0: an aggregate
+                    # built from them and never cleared is positively wrong, wherever it appears
+                    flipped = any(x[0] == "un" and x[1] == "Not" for x in subterms(d))
+                    for x in subterms(d):
+                        if x[0] == "closure" and F.has_body(x[2]):
+                            cb = F.body(x[2])
+                            flipped = flipped or any(st_["s"] == "assign" and st_["rv"]["r"] == "un" and st_["rv"]["op"] == "Not" for _, _, st_ in cb.stmts()) or \
+                                any(callee_written(t_).endswith("ops::Not::not") for _, t_ in cb.calls())
+                    trig.append((bi, "RawVector{data: %s}%s" % (tstr(d)[:60], " [complemented words]" if flipped else ""), st["sp"]))
         # (c) Vec::resize with a non-zero filler on a RawVector's data, (d) stores through iter_mut items of data
         for bi, t in b.calls():
             n = callee_name(t)
@@ -153,7 +161,8 @@ def check_tail_invariant(ctx, F, tag, prefix="C05.R1"):
             # a clearing call in the trigger's own block must come after it: blocks are split at calls, so a trigger statement
             # in block bi precedes the call terminating bi.
             ctx.ob(prefix + ".tail-cleared-after-trigger", "%s|%s#%d%s" % (b.name, what.split(" ")[0], k, tag), loc(sp), ok, "must-pass-through",
-                   "trigger `%s`: every path to return %s set_unused_bits(false) / data.clear()" % (what, "passes" if ok else "does NOT pass"))
+                   "trigger `%s`: every path to return %s set_unused_bits(false) / data.clear()" % (what, "passes" if ok else "does NOT pass"),
+                   positive=(not ok) and what.endswith("[complemented words]"))
     ctx.count("tail-triggers" + tag, ntrig)
     # a store from elsewhere is outside what the trigger analysis above covers: the invariant may still hold there (undecided)
     ctx.ob(prefix + ".fields-private-to-impl", RV + tag, "src/raw_vector.rs", True if not outside else None, "who-may-store", "RawVector field stores/aggregates outside impl RawVector: %s" % outside)
@@ -192,6 +201,61 @@ def check_tail_invariant(ctx, F, tag, prefix="C05.R1"):
             detail = "data[split_offset(len).0] &= low_set(split_offset(len).1) when width > 0 and value == false: mask-width=%s guard=%s false-arm=%s index=%s" % (okw, g, nf, oki)
     ctx.ob(prefix + ".helper-masks-last-word", SUB + tag, loc(sb.raw["span"]), oks, "term-shape+guard", detail)
     ctx.floor("tail-triggers" + tag, 7)
+
+
+
+def edge_facts_to_return_avoiding(b, store_block):
+    """Branch edges (u, v, facts at v) that decide to leave the function without passing store_block: v reaches a return without
+    store_block, some sibling successor of u can still reach store_block."""
+    can_store = b.can_reach([store_block])
+    out = []
+    rets = set(b.return_blocks())
+    for u in sorted(b.reachable()):
+        t = b.blocks[u]["term"]
+        if t["t"] != "switch" or u not in can_store:
+            continue
+        for v in b.succ(u):
+            if v in can_store or v == store_block:
+                continue
+            if rets & (set(b.reach_from([v])) | {v}):
+                out.append((u, v, facts_at(b, v)))
+    return out
+
+
+def check_word_count(ctx, F, tag, rule="C05.R3.word-count-follows-length"):
+    # ---------------- R3 the word count follows the length: `data.resize(bits_to_words(self.len()), ..)` reads the length that is
+    # current when it runs; a store to RawVector.len reachable after it leaves data with the word count of the old length
+    # ("two vectors with the same content compare equal and serialize identically" -- the derived PartialEq compares data)
+    for b in F.all_bodies():
+        if "::tests::" in b.name:
+            continue
+        lens = field_store_blocks(b, RV, "len")
+        if not lens:
+            continue
+        k = 0
+        for bi, t in b.calls():
+            nme = callee_name(t)
+            if not (nme.startswith("std::vec::Vec::<") and nme.split("::")[-1] in ("resize", "truncate")) or len(t["args"]) < 2:
+                continue
+            size = b.term_of_operand(t["args"][1])
+            reads_len = any((x[0] == "call" and x[1] == RV + "::len") or (x[0] == "field" and x[2] == "len" and self_path(x) == ["len"]) for x in subterms(size))
+            if not reads_len:
+                continue
+            after = b.reach_from(b.succ(bi))
+            stale = [loc(st["sp"]) for (sbi, si, st) in lens if sbi in after]
+            ctx.ob(rule, "%s|resize#%d%s" % (b.name, k, tag), loc(t["sp"]), not stale, "ordering",
+                   "data is resized to the word count of self.len; stores to self.len reachable after that resize: %s" % (stale or "none"), positive=True)
+            # ... and to exactly that word count: bits_to_words(len), not of len + 1 (a spare word keeps a popped bit alive past the end)
+            # (decided over the residues of the length, A13: `len.div_ceil(64)` and `(len + 63) / 64` are the same count,
+            # `len / 64 + 1` and `bits_to_words(len + 1)` are not -- they differ when 64 | len)
+            import residues
+            is_len_read = lambda x: (x[0] == "call" and x[1] == RV + "::len") or (x[0] == "field" and x[2] == "len" and self_path(x) == ["len"])
+            want = ("call", "bits::bits_to_words", (residues.NVAR,), (), "bits::bits_to_words")
+            exact, why = residues.equiv(F, residues.abstract(size, is_len_read), want, residues.is_nvar)
+            size_txt = tstr(size)[:70] + ("" if exact is not False else "; " + why)
+            ctx.ob(rule, "%s|resize#%d|exact%s" % (b.name, k, tag), loc(t["sp"]), exact, "term-shape",
+                   "data is resized to bits_to_words(self.len) exactly: %s (%s)" % (exact, size_txt), positive=exact is False)
+            k += 1
 
 
 
@@ -248,6 +312,8 @@ def check_config(ctx, F, tag):
     ctx.ob("C05.R2.push-bit-at-len", "<raw_vector::RawVector as raw_vector::PushRaw>::push_bit" + tag, loc(pb.raw["span"]), okp, "term-shape",
            "push_bit ors (value as u64) << split_offset(len).1: %s" % okp)
 
+    check_word_count(ctx, F, tag)
+
     # ---------------- R3 IntVector co-mutation
     n = 0
     for b in F.all_bodies():
@@ -292,6 +358,28 @@ def check_config(ctx, F, tag):
                 ok = m(Const(0), fill)
                 detail = "self.data.resize(_, %s): a word-level fill of an integer vector must be the constant `false` (items of width > 1, and values wider than the width, are not bit fills)" % tstr(fill)
             ctx.ob("C05.R3.int-vector-data-writers", "%s|%s%s" % (b.name, meth, tag), loc(t["sp"]), ok, "who-may-mutate", detail, nontrivial=meth == "resize")
+    # the same for vectors under construction: a bit-level fill (RawVector::with_len / resize with a non-constant fill bit) of what
+    # becomes IntVector.data writes all-zero or all-one items -- right only for values whose low `width` bits are all equal
+    import widths
+    fills = []
+    for b in F.all_bodies():
+        if "::tests::" in b.name or widths.body_file(b) != "src/int_vector.rs":
+            continue
+        for bi, t in b.calls():
+            nme = callee_name(t)
+            if nme in (RV + "::with_len", RV + "::resize") and not m(Const(0), b.term_of_operand(t["args"][-1])):
+                # positively wrong: the fill is chosen by an ordering test on an unmasked parameter (value >= low_set(width) holds for
+                # values whose low bits are not all ones); any other computed fill bit is neither established nor refuted
+                R = set(b.can_reach([bi])) | {bi}
+                # (tests that decide whether the fill is reached: an edge towards the call whose sibling edge leads away from it)
+                ordered = [f for (u, v, f) in edge_facts(b) if v in R and any(w not in R for w in b.succ(u)) and f[0] == "cmp" and f[1] in ("Ge", "Gt", "Le", "Lt") and
+                           any(core(x)[0] == "param" and b.local_ty(core(x)[1] + 1) == "u64" for x in (f[2], f[3]))]
+                fills.append((bool(ordered), "%s: %s(.., %s) at %s%s" % (b.name, nme.split("::")[-1], tstr(b.term_of_operand(t["args"][-1]))[:50], loc(t["sp"]),
+                                                                       " behind an ordering test on the unmasked value" if ordered else "")))
+    bad = any(o for o, _ in fills)
+    ctx.ob("C05.R3.int-vector-no-bit-level-fill", "src/int_vector.rs" + tag, "src/int_vector.rs", True if not fills else (False if bad else None), "who-may-mutate",
+           "bit-level fills with a fill bit other than the constant `false` in the integer vector's module (count must be 0): %s" % [d for _, d in fills][:3],
+           nontrivial=False, positive=bad)
     ctx.count("int-vector-data-mutations" + tag, nm)
     ctx.floor("int-vector-data-mutations" + tag, 6)
     ctx.count("int-vector-len-stores" + tag, n)
@@ -321,6 +409,31 @@ def check_config(ctx, F, tag):
         okk = len(pushes) == 1 and core(pk.term_of_operand(pushes[0]["args"][2])) == core(wv) and all(is_bit_len(v) for v in alts)
         detail = "pack: width := %s, data := vector filled by push_int(_, same width): %s" % (tstr(wv)[:80], okk)
     ctx.ob("C05.R3.pack-width-data", "<int_vector::IntVector as ops::Pack>::pack" + tag, loc(pk.raw["span"]), okk, "co-mutation+term", detail)
+    # "pack() selects exactly the width of the largest item": the paths that leave the vector as it is are the empty vector and
+    # new_width == width -- nothing weaker (a pack that skips the copy when no word would be saved keeps a wider width)
+    if ws:
+        skipping = [e for e in edge_facts_to_return_avoiding(pk, ws[0][0])]
+        okskip = True
+        why = []
+        wv_ = core(pk.term_of_rvalue(ws[0][2]["rv"]))
+        is_width = lambda x: (core(x)[0] == "call" and core(x)[1].endswith("::width")) or self_path(x) == ["width"]
+        for (u, v, fs) in skipping:
+            # `the width that would be stored == the current width` (the stored term itself, or bit_len(..) spelled out)
+            eqw = any(f[0] == "cmp" and f[1] == "Eq" and ((is_width(f[2]) and (core(f[3]) == wv_ or any(x[0] == "call" and x[1] == "bits::bit_len" for x in subterms(f[3])))) or
+                                                        (is_width(f[3]) and (core(f[2]) == wv_ or any(x[0] == "call" and x[1] == "bits::bit_len" for x in subterms(f[2]))))) for f in fs)
+            empty = any((f[0] == "bool" and f[2] is True and any(x[0] == "call" and x[1].endswith("::is_empty") for x in subterms(f[1]))) or
+                        (f[0] == "cmp" and f[1] == "Eq" and any(x[0] == "call" and x[1].endswith("::len") for x in list(subterms(f[2])) + list(subterms(f[3]))) and
+                         any(core(x)[:2] == ("const", 0) for x in (f[2], f[3]))) or
+                        (f[0] == "discr" and any(x[0] == "call" and x[1].split("::")[-1] in ("max", "next") for x in subterms(f[1]))) for f in fs)
+            if eqw or empty:
+                continue
+            # positively weaker than equality: the deciding test is an ordering comparison (on widths, word counts, savings)
+            decide = [f for (u2, v2, f) in edge_facts(pk) if u2 == u and v2 == v and f[0] == "cmp"]
+            weaker = any(f[1] in ("Ge", "Gt", "Le", "Lt") for f in decide)
+            okskip = False if (weaker or okskip is False) else None
+            why.append("bb%d->bb%d%s" % (u, v, " (ordering test)" if weaker else " (test not recognised)"))
+        ctx.ob("C05.R3.pack-skips-only-when-minimal", "<int_vector::IntVector as ops::Pack>::pack" + tag, loc(pk.raw["span"]), okskip if skipping else None, "guard-dominance",
+               "%d branch(es) leave pack without storing a width; each is behind `is_empty()` or `bit_len(max) == width()`: %s" % (len(skipping), "yes" if okskip else why))
 
     # ---------------- R4 derived equality
     for adt_ in (RV, IV):
@@ -371,6 +484,15 @@ def check_masked_direct_stores(ctx, F, tag, prefix):
                     bad.append(loc(t["sp"]))
         ctx.ob(prefix + ".no-unmasked-direct-store", fn + tag, loc(b.raw["span"]), not bad, "dataflow",
                "%d direct word stores / pushes in the writer; with the value not masked to `width` bits: %s" % (n, bad or "none"), nontrivial=bool(n), positive=True)
+
+
+def _ls(d):
+    """A linear form as text."""
+    parts = []
+    for k_, v in sorted(d.items(), key=repr):
+        name = "" if k_ == () else ("arg%d" % k_[1] if k_[0] == "param" else tstr(k_)[:40])
+        parts.append(("%+d" % v) if k_ == () else ("%+d*%s" % (v, name)))
+    return " ".join(parts) or "0"
 
 
 def check_write_int(ctx, F, tag, prefix):
@@ -445,6 +567,112 @@ def check_write_int(ctx, F, tag, prefix):
     for k, (bi, st, t) in enumerate(comb):
         ctx.ob(prefix + ".field-cleared-before-or", "bits::write_int|replace#%d%s" % (k, tag), loc(st["sp"]), True, "term-shape",
                "word [%s] := (old & value-independent mask) | new bits, in one expression" % tstr(word_index(st))[:60])
+    # the extent of each clearing mask, as a set of kept bit ranges with linear bounds in (offset, width): the field
+    # [offset, offset + width) of the word is cleared and nothing else.  A mask that keeps too much leaves old bits under the new
+    # value; one that keeps too little (S: `!low_set(offset)` for the second word) erases the neighbouring item.
+    from guards import linear, fact_linear_le
+    from pat import fold_consts
+    off = None
+    for bi, tt in wb.calls():
+        if callee_name(tt) == "bits::split_offset":
+            off = ("field", wb.term_of_call(tt), "1")
+    width = ("param", 3, wb.local_name(4))
+
+    def L(t):
+        return linear(fold_consts(t))
+
+    def lin_add(a, b_, sign=1):
+        out = dict(a)
+        for k_, v in b_.items():
+            out[k_] = out.get(k_, 0) + sign * v
+        return {k_: v for k_, v in out.items() if v != 0}
+
+    def kept(t):
+        t = core(fold_consts(t))
+        if t[0] == "const" and isinstance(t[1], int):
+            return [] if t[1] == 0 else ([({}, {(): 64})] if t[1] == (1 << 64) - 1 else None)
+        if t[0] == "call" and t[1] in ("bits::low_set", "bits::low_set_unchecked"):
+            return [({}, L(t[2][0]))]
+        if t[0] == "call" and t[1] in ("bits::high_set", "bits::high_set_unchecked"):
+            return [(lin_add({(): 64}, L(t[2][0]), -1), {(): 64})]
+        if t[0] == "bin" and t[1] == "BitOr":
+            x, y = kept(t[2]), kept(t[3])
+            return None if x is None or y is None else x + y
+        if t[0] == "bin" and t[1] == "Shl":
+            x = kept(t[2])
+            if x is not None and len(x) == 1 and x[0][0] == {}:
+                return [(L(t[3]), lin_add(L(t[3]), x[0][1]))]
+            return None
+        if t[0] == "un" and t[1] == "Not":
+            x = kept(t[2])
+            if x is None:
+                return None
+            x = [i for i in x if i[0] != i[1]]
+            if len(x) == 1:
+                return [({}, x[0][0]), (x[0][1], {(): 64})]
+            if len(x) == 2:
+                lo = [i for i in x if i[0] == {}]
+                hi = [i for i in x if i[1] == {(): 64}]
+                if len(lo) == 1 and len(hi) == 1 and lo[0] is not hi[0]:
+                    return [(lo[0][1], hi[0][0])]
+            return None
+        return None
+
+    def norm(iv):
+        return sorted([i for i in iv if i[0] != i[1]], key=repr)
+
+    if off is not None:
+        for k, (bi, st, t) in enumerate([a for a in ands if value_free(a[2])] + comb):
+            idx = core(word_index(st))
+            second = idx[0] == "bin" and idx[1] == "Add"
+            fs = facts_at(wb, bi)
+            single = fact_linear_le(fs, ("bin", "Add", off, width), ("const", 64))
+            mask = None
+            tt = core(t)
+            if tt[0] == "bin" and tt[1] == "BitAnd":
+                cands = [x for x in (tt[2], tt[3]) if value_free(x) and kept(x) is not None]
+                mask = kept(cands[0]) if cands else None
+            elif tt[0] == "bin" and tt[1] == "BitOr":
+                for x in (tt[2], tt[3]):
+                    x = core(x)
+                    # the half that keeps the old word: old & mask
+                    if x[0] == "bin" and x[1] == "BitAnd" and value_free(x) and any(z[0] in ("index", "deref") or (z[0] == "call" and z[1].endswith(("::index", "::index_mut"))) for z in subterms(x)):
+                        cands = [y for y in (x[2], x[3]) if kept(y) is not None]
+                        mask = kept(cands[0]) if cands else None
+            o, w = L(off), L(width)
+            whole = [({}, o), (lin_add(o, w), {(): 64})]
+            if second:
+                wants = [[(lin_add(lin_add(o, w), {(): 64}, -1), {(): 64})]]
+            elif single:
+                wants = [whole]
+            else:
+                # (the whole-field mask `!(low_set(width) << offset)` is also right for the first word of a straddling field:
+                # the shift drops what lies beyond the word)
+                wants = [[({}, o)], whole]
+            ok = None if mask is None else any(norm(mask) == norm(x) for x in wants)
+            ctx.ob(prefix + ".clear-mask-extent", "bits::write_int|%s-word%s%s" % ("second" if second else "first", "" if second or not single else "-whole-field", tag), loc(st["sp"]), ok, "symbolic-mask",
+                   "kept bit ranges of the clearing mask %s; the field [offset, offset + width) and nothing else is cleared: %s" % (
+                       "not recognised" if mask is None else [(_ls(a), _ls(b_)) for a, b_ in norm(mask)], ok))
+
+    # a plain assignment `array[i] = X` that does not read the old word discards every old bit of it: right for the whole-word
+    # field (offset == 0 and width == 64, the fast path of a benign variant), never right for the second word of a straddling
+    # field (it receives offset + width - 64 < 64 bits; the rest belongs to the following items)
+    if off is not None:
+        for k, (bi, st, t) in enumerate(others):
+            reads_old = any(z[0] in ("index",) or (z[0] == "call" and z[1].endswith(("::index", "::index_mut"))) for z in subterms(t))
+            if reads_old:
+                continue
+            idx = core(word_index(st))
+            second = idx[0] == "bin" and idx[1] == "Add"
+            fs = facts_at(wb, bi)
+            from guards import fact_zero
+            whole = fact_zero(fs, off) and any(f[0] == "cmp" and f[1] == "Eq" and {core(f[2])[:2], core(f[3])[:2]} == {("param", 3), ("const", 64)} for f in fs)
+            ctx.ob(prefix + ".clear-mask-extent", "bits::write_int|plain-store-%s-word#%d%s" % ("second" if second else "first", k, tag), loc(st["sp"]),
+                   False if second else (True if whole else None), "symbolic-mask",
+                   "word [%s] := %s discards all old bits of the word%s" % (tstr(idx)[:30], tstr(t)[:50], ": the second word of a straddling field is never written whole" if second else
+                                                                          (" behind offset == 0 && width == 64" if whole else "; no dominating offset == 0 && width == 64")),
+                   positive=second)
+
     # anything else written into a word is a shape this rule does not know (undecided), not a refutation
     ctx.ob(prefix + ".only-and-or-stores", "bits::write_int" + tag, loc(wb.raw["span"]), (True if len(ors) + len(comb) >= 2 else False) if not others else None, "term-shape",
            "stores other than &= / |= / (old & m) | v: %d" % len(others), nontrivial=False)
